@@ -1,6 +1,20 @@
-//! C13 — Span operations agree with pest's Span.
+//! C13 — Span operations agree with pest's Span (real code, no stubs; pest 2.7.14 is the oracle).
 use crate::nd;
 use pest_typed::Span;
+
+fn same(m: Option<Span<'_>>, t: Option<pest::Span<'_>>) {
+    match (m, t) {
+        (None, None) => {}
+        (Some(m), Some(t)) => {
+            assert!(m.start() == t.start());
+            assert!(m.end() == t.end());
+            let ms = m.as_str();
+            let ts = t.as_str();
+            assert!(ms.as_ptr() == ts.as_ptr() && ms.len() == ts.len());
+        }
+        _ => panic!("Some/None verdict differs from pest"),
+    }
+}
 
 fn span_new<const L: usize>() {
     let buf = nd::utf8_buf::<L>();
@@ -11,25 +25,186 @@ fn span_new<const L: usize>() {
     let theirs = pest::Span::new(s, a, b);
     cover!(mine.is_some() && a < b, "some nonempty span");
     cover!(mine.is_none() && a <= b && b <= L, "rejected non-boundary");
-    match (mine, theirs) {
-        (None, None) => {}
-        (Some(m), Some(t)) => {
-            assert!(m.start() == t.start());
-            assert!(m.end() == t.end());
-            assert!(m.start() == a && m.end() == b);
-            let ms = m.as_str();
-            let ts = t.as_str();
-            assert!(ms.as_ptr() == ts.as_ptr() && ms.len() == ts.len());
-        }
-        _ => panic!("Span::new verdict differs from pest"),
+    if let Some(m) = mine {
+        assert!(m.start() == a && m.end() == b);
+        assert!(s.is_char_boundary(a) && s.is_char_boundary(b) && a <= b && b <= L);
+    } else {
+        assert!(!(a <= b && b <= L && s.is_char_boundary(a) && s.is_char_boundary(b)));
     }
+    same(mine, theirs);
+}
+
+/// A symbolic valid span of `s` in both libraries.
+fn both<'a>(s: &'a str) -> (Span<'a>, pest::Span<'a>) {
+    let a = nd::usize();
+    let b = nd::usize();
+    let m = Span::new(s, a, b);
+    let t = pest::Span::new(s, a, b);
+    nd::assume(m.is_some() && t.is_some());
+    (m.unwrap(), t.unwrap())
+}
+
+fn span_get<const L: usize>(form: u8) {
+    let buf = nd::utf8_buf::<L>();
+    let s = nd::as_str(&buf);
+    let (m, t) = both(s);
+    let x = nd::usize();
+    let y = nd::usize();
+    // `..=usize::MAX` overflows identically in pest and pest-typed (debug: panic); outside the claim.
+    nd::assume(y < usize::MAX);
+    let (rm, rt) = match form {
+        0 => (m.get(x..y), t.get(x..y)),
+        1 => (m.get(x..=y), t.get(x..=y)),
+        2 => (m.get(x..), t.get(x..)),
+        3 => (m.get(..y), t.get(..y)),
+        4 => (m.get(..=y), t.get(..=y)),
+        _ => (m.get(..), t.get(..)),
+    };
+    cover!(rm.is_some() && m.start() > 0, "sub-span of an offset span");
+    cover!(rm.is_none() || form == 5, "rejected sub-range (n/a for ..)");
+    if let Some(r) = rm {
+        // independent spec: relative to the span's own text
+        assert!(r.start() >= m.start() && r.end() <= m.end() && r.start() <= r.end());
+        assert!(s.is_char_boundary(r.start()) && s.is_char_boundary(r.end()));
+        if form == 0 {
+            assert!(r.start() == m.start() + x && r.end() == m.start() + y);
+        }
+        if form == 1 {
+            assert!(r.start() == m.start() + x && r.end() == m.start() + y + 1);
+        }
+        if form == 2 {
+            assert!(r.start() == m.start() + x && r.end() == m.end());
+        }
+        if form == 3 {
+            assert!(r.start() == m.start() && r.end() == m.start() + y);
+        }
+        if form == 5 {
+            assert!(r.start() == m.start() && r.end() == m.end());
+        }
+    }
+    same(rm, rt);
+}
+
+fn span_accessors<const L: usize>() {
+    let buf = nd::utf8_buf::<L>();
+    let s = nd::as_str(&buf);
+    let (m, t) = both(s);
+    assert!(m.start() == t.start() && m.end() == t.end());
+    let (p1, p2) = m.split();
+    let (q1, q2) = t.split();
+    assert!(p1.pos() == q1.pos() && p2.pos() == q2.pos());
+    assert!(p1.pos() == m.start() && p2.pos() == m.end());
+    assert!(m.start_pos().pos() == t.start_pos().pos() && m.end_pos().pos() == t.end_pos().pos());
+    let ms = m.as_str();
+    let ts = t.as_str();
+    assert!(ms.as_ptr() == ts.as_ptr() && ms.len() == ts.len());
+    assert!(ms.as_ptr() as usize == s.as_ptr() as usize + m.start() && ms.len() == m.end() - m.start());
+    assert!(m.get_input().as_ptr() == s.as_ptr() && m.get_input().len() == s.len());
+    let f = Span::new_full(s);
+    assert!(f.start() == 0 && f.end() == L);
+    cover!(m.start() > 0 && m.end() < L, "inner span");
+}
+
+fn span_merge<const L: usize>() {
+    let buf = nd::utf8_buf::<L>();
+    let s = nd::as_str(&buf);
+    let (m1, t1) = both(s);
+    let (m2, t2) = both(s);
+    let rm = pest_typed::merge_spans(&m1, &m2);
+    let rt = pest::merge_spans(&t1, &t2);
+    let overlap_or_adjacent = m1.end() >= m2.start() && m2.end() >= m1.start();
+    cover!(rm.is_some() && m1.end() == m2.start() && m1.start() < m1.end() && m2.start() < m2.end(), "adjacent");
+    cover!(rm.is_none(), "disjoint");
+    match rm {
+        Some(r) => {
+            assert!(overlap_or_adjacent);
+            let lo = if m1.start() < m2.start() { m1.start() } else { m2.start() };
+            let hi = if m1.end() > m2.end() { m1.end() } else { m2.end() };
+            assert!(r.start() == lo && r.end() == hi);
+        }
+        None => assert!(!overlap_or_adjacent),
+    }
+    same(rm, rt);
+}
+
+fn span_eq<const L: usize>() {
+    let buf = nd::utf8_buf::<L>();
+    let s = nd::as_str(&buf);
+    let (m1, _) = both(s);
+    let (m2, _) = both(s);
+    let fieldwise = m1.start() == m2.start() && m1.end() == m2.end();
+    assert!((m1 == m2) == fieldwise);
+    cover!(m1 == m2, "equal");
+    cover!(m1 != m2 && m1.as_str().len() == m2.as_str().len(), "same length, different place");
+    // a span of an equal but distinct string object is a different span
+    let copy = buf;
+    let s2 = nd::as_str(&copy);
+    let o = Span::new(s2, m1.start(), m1.end());
+    if let Some(o) = o {
+        assert!(o != m1);
+    }
+}
+
+fn lines<const L: usize>() {
+    let buf = nd::ascii_buf::<L>(b"\n\ra");
+    let s = nd::as_str(&buf);
+    let (m, t) = both(s);
+    let mut im = m.lines_span();
+    let mut it = t.lines_span();
+    let mut k = 0;
+    let mut n = 0;
+    while k < L + 2 {
+        let a = im.next();
+        let b = it.next();
+        if a.is_some() {
+            n += 1;
+        }
+        same(a, b);
+        k += 1;
+    }
+    let mut jm = m.lines();
+    let mut jt = t.lines();
+    let mut k = 0;
+    while k < L + 2 {
+        let a = jm.next();
+        let b = jt.next();
+        match (a, b) {
+            (None, None) => {}
+            (Some(a), Some(b)) => assert!(a.as_ptr() == b.as_ptr() && a.len() == b.len()),
+            _ => panic!("lines() verdict differs"),
+        }
+        k += 1;
+    }
+    cover!(n == 2, "two lines");
 }
 
 harnesses! {
     #[kani::unwind(5)]
-    fn c13_span_new_3() [] : "Q|Span::new vs pest::Span::new; arbitrary UTF-8, 3 bytes" { span_new::<3>() }
+    fn c13_span_new_3() [] : "Q|Span::new vs pest::Span::new + boundary spec; every valid UTF-8 string of 3 bytes, unconstrained usize a,b" { span_new::<3>() }
     #[kani::unwind(6)]
-    fn c13_w_span_new_4() [] : "W|witness: must fail" { span_new::<4>(); assert!(false); }
+    fn c13_span_new_4() [] : "Q|Span::new vs pest + boundary spec; every valid UTF-8 string of 4 bytes, unconstrained usize a,b" { span_new::<4>() }
+    #[kani::unwind(7)]
+    fn c13_span_new_5() [] : "T|Span::new vs pest + boundary spec; every valid UTF-8 string of 5 bytes" { span_new::<5>() }
     #[kani::unwind(6)]
-    fn c13_span_new_4() [] : "Q|Span::new vs pest::Span::new; arbitrary UTF-8, 4 bytes, unconstrained usize a,b" { span_new::<4>() }
+    fn c13_w_span_new_4() [] : "W|reachability witness of c13_span_new_4: the final assert(false) must be violated" { span_new::<4>(); assert!(false); }
+    #[kani::unwind(6)]
+    fn c13_get_range_4() [] : "Q|Span::get(x..y) vs pest + offset spec; UTF-8 4 bytes, every valid span, unconstrained x,y" { span_get::<4>(0) }
+    #[kani::unwind(6)]
+    fn c13_get_range_incl_4() [] : "Q|Span::get(x..=y); y < usize::MAX" { span_get::<4>(1) }
+    #[kani::unwind(6)]
+    fn c13_get_from_4() [] : "Q|Span::get(x..)" { span_get::<4>(2) }
+    #[kani::unwind(6)]
+    fn c13_get_to_4() [] : "Q|Span::get(..y)" { span_get::<4>(3) }
+    #[kani::unwind(6)]
+    fn c13_get_to_incl_4() [] : "Q|Span::get(..=y); y < usize::MAX" { span_get::<4>(4) }
+    #[kani::unwind(6)]
+    fn c13_get_full_4() [] : "Q|Span::get(..)" { span_get::<4>(5) }
+    #[kani::unwind(6)]
+    fn c13_accessors_4() [] : "Q|start/end/split/start_pos/end_pos/as_str/get_input/new_full vs pest and vs the slice; UTF-8 4 bytes, every valid span" { span_accessors::<4>() }
+    #[kani::unwind(6)]
+    fn c13_merge_4() [] : "Q|merge_spans vs pest::merge_spans and vs the hull spec; UTF-8 4 bytes, every pair of valid spans" { span_merge::<4>() }
+    #[kani::unwind(6)]
+    fn c13_eq_4() [] : "Q|Span == is field-wise on one input object and false across input objects; UTF-8 4 bytes" { span_eq::<4>() }
+    #[kani::unwind(6)]
+    fn c13_lines_2() [] : "T|lines()/lines_span() vs pest; every string of 2 bytes over {LF,CR,'a'}, every span" { lines::<2>() }
 }
